@@ -79,8 +79,24 @@ Definition ops : list opsig := [
   mkOp "GEOSGeom_createEmptyPoint_r" [] fresh RCptr false; mkOp "GEOSGeom_createEmptyLineString_r" [] fresh RCptr false;
   mkOp "GEOSGeom_createEmptyPolygon_r" [] fresh RCptr false; mkOp "GEOSGeom_createEmptyCollection_r" [AN 5] fresh RCptr false;
   mkOp "GEOSGeom_createPointFromXY_r" [d; d] fresh RCptr false; mkOp "GEOSGeom_createRectangle_r" [d; d; d; d] fresh RCptr false;
+  (* constructors that take ownership of an ARRAY of geometries — also when they fail: every element, whatever its type and
+     position, is consumed.  One row per array length, so that wrong-typed elements occur first, in the middle, last and several times *)
+  mkOp "GEOSGeom_createCollection_r" [AN 5; AX KG] fresh RCptr false;
   mkOp "GEOSGeom_createCollection_r" [AN 5; AX KG; AX KG] fresh RCptr false;
+  mkOp "GEOSGeom_createCollection_r" [AN 5; AX KG; AX KG; AX KG] fresh RCptr false;
+  mkOp "GEOSGeom_createCollection_r" [AN 5; AX KG; AX KG; AX KG; AX KG] fresh RCptr false;
+  mkOp "GEOSGeom_createPolygon_r" [AX KG] fresh RCptr false;
   mkOp "GEOSGeom_createPolygon_r" [AX KG; AX KG] fresh RCptr false;
+  mkOp "GEOSGeom_createPolygon_r" [AX KG; AX KG; AX KG] fresh RCptr false;
+  mkOp "GEOSGeom_createPolygon_r" [AX KG; AX KG; AX KG; AX KG] fresh RCptr false;
+  mkOp "GEOSGeom_createCompoundCurve_r" [AX KG] fresh RCptr false;
+  mkOp "GEOSGeom_createCompoundCurve_r" [AX KG; AX KG] fresh RCptr false;
+  mkOp "GEOSGeom_createCompoundCurve_r" [AX KG; AX KG; AX KG] fresh RCptr false;
+  mkOp "GEOSGeom_createCompoundCurve_r" [AX KG; AX KG; AX KG; AX KG] fresh RCptr false;
+  mkOp "GEOSGeom_createCurvePolygon_r" [AX KG] fresh RCptr false;
+  mkOp "GEOSGeom_createCurvePolygon_r" [AX KG; AX KG] fresh RCptr false;
+  mkOp "GEOSGeom_createCurvePolygon_r" [AX KG; AX KG; AX KG] fresh RCptr false;
+  mkOp "GEOSGeom_createCurvePolygon_r" [AX KG; AX KG; AX KG; AX KG] fresh RCptr false;
   (* coordinate sequences *)
   mkOp "GEOSCoordSeq_create_r" [AN 7; AN 8] (RF KS []) RCptr false; mkOp "GEOSCoordSeq_clone_r" [AC KS] (RF KS []) RCptr false;
   mkOp "GEOSCoordSeq_destroy_r" [AD KS] RNone RCvoid false;
